@@ -1,4 +1,4 @@
-(* Foundations for SetOpsProofs.v: upd / list / dict lemmas, extensionality of the derived accessors,
+(* Foundations for SetOpsProofs.v: upd / list / dict lemmas, congruence of the derived accessors under pointwise-equal maps,
    the ancestor view of subtree / ir_of, and the abstract detach / attach steps with the preservation
    of Forest and CacheInv. *)
 From Coq Require Import ZArith List Bool Lia Arith.
